@@ -104,15 +104,45 @@ def snk(shape):
     return sink_type(parse_sinks(shape)[0], [0])
 
 
+# item kinds whose statement is compiled only if the library accepts it (otherwise the harness records UNSUPPORTED:<shape>,
+# which the model never does): a tree in which such a statement would not compile still yields a runnable driver and hence a
+# concrete failing input instead of a bare build failure.  %s is the type of the stream expression.
+GUARDS = {
+    "u": "can_insert<%s, const NoCopy&>::value",                           # deleted copy constructor
+    "w": "nitro::meta::is_callable<Fnc, std::string()>::value",            # non-const call operator, not insertable as a value:
+    "W": "nitro::meta::is_callable<Fnc, std::string()>::value",            #   if the library does not take it for a callable the
+    "Q": "nitro::meta::is_callable<Fnc, std::string()>::value",            #   statement has no meaning at all
+    "M": "nitro::meta::is_callable<Fnc, std::string()>::value",            # (a mutable lambda's type cannot be named: Fnc stands in)
+}
+
+
+def guard_of(shape, stream_type):
+    g = []
+    for k in shape:
+        if k in GUARDS:
+            c = GUARDS[k] % stream_type if "%s" in GUARDS[k] else GUARDS[k]
+            if c not in g:
+                g.append(c)
+    return " && ".join(g)
+
+
 def slot_cases():
     """the named form: `s << <callable of kind k>;` as its own statement"""
     out = []
     for k in CKINDS + OBJKINDS:
         setup, expr = shape_code(k)
+        g = guard_of(k, "Stream&")
         out.append("        case '%s':\n        {\n" % k)
+        ind = "            "
+        if g:
+            out.append("            if constexpr (%s)\n            {\n" % g)
+            ind += "    "
         for l in setup:
-            out.append("            %s\n" % l)
-        out.append("            s%s;\n            break;\n        }\n" % expr)
+            out.append("%s%s\n" % (ind, l))
+        out.append("%ss%s;\n" % (ind, expr))
+        if g:
+            out.append("            }\n            else unsupported(\"%s\");\n" % k)
+        out.append("            break;\n        }\n")
     return "".join(out)
 
 
@@ -300,9 +330,6 @@ struct FncIns // … which has its own operator<<
     }
 };
 inline std::ostream& operator<<(std::ostream& o, const FncIns&) { return o << "<FncIns printed as a value>"; }
-static_assert(nitro::meta::is_callable<Fnc, std::string()>::value && nitro::meta::is_callable<FncBool, std::string()>::value &&
-                  nitro::meta::is_callable<FncIns, std::string()>::value,
-              "function objects with a non-const call operator are lazily evaluated callables");
 
 // streamable objects: a polymorphic one streamed through a reference to its copyable, non-abstract base
 struct Shape
@@ -336,6 +363,15 @@ struct CopyMarked
     CopyMarked(const CopyMarked& c) : s(c.s + "<copy>") {}
 };
 inline std::ostream& operator<<(std::ostream& o, const CopyMarked& v) { return o << v.s; }
+
+// does `stream << value` compile (as far as the signature of the selected operator<< goes)?
+template <class St, class T, class = void> struct can_insert : std::false_type
+{
+};
+template <class St, class T> struct can_insert<St, T, decltype(void(std::declval<St>() << std::declval<T>()))> : std::true_type
+{
+};
+inline void unsupported(const char* shape) { g_ev.push_back(std::string("UNSUPPORTED:") + shape); }
 
 // a user type whose stream insertion fails
 struct FailBit
@@ -413,9 +449,18 @@ template <int S> struct Mk;
         a("template <int S> void one_%s(const std::string* tag, const Item* it)" % name)
         a("{")
         a("    (void)it;")
+        g = guard_of(sh, "typename Mk<S>::type&&")
+        ind = "    "
+        if g:
+            a("    if constexpr (%s)" % g)
+            a("    {")
+            ind = "        "
         for l in setup:
-            a("    " + l)
-        a("    Mk<S>::make(tag)%s;" % expr)
+            a(ind + l)
+        a(ind + "Mk<S>::make(tag)%s;" % expr)
+        if g:
+            a("    }")
+            a("    else unsupported(\"%s\");" % sh)
         a("}")
     a("constexpr int NSHAPES = %d;" % len(shapes))
     a("static const char* const k_shape_name[NSHAPES] = { %s };" % ", ".join('"%s"' % s for s in shapes))
@@ -690,6 +735,9 @@ def static_source(early=None):
     a = o.append
     a("std::vector<std::string> g_ev;")
     a("const Item* g_fp[3];")
+    a('''static_assert(nitro::meta::is_callable<Fnc, std::string()>::value && nitro::meta::is_callable<FncBool, std::string()>::value &&
+                  nitro::meta::is_callable<FncIns, std::string()>::value,
+              "function objects with a non-const call operator are lazily evaluated callables");''')
     a("// C10: the statement's type is smart_stream iff its severity is at or above the compile-time minimum, else null_stream")
     for i, (f, m, rc) in enumerate(LOGGERS):
         a("namespace lg%d" % i)
